@@ -26,6 +26,18 @@ pub struct Case {
 }
 
 fn numeral(rng: &mut Rng) -> String {
+    let mut n = numeral_raw(rng);
+    // never a zero-valued fraction (`.0`, `12.00`): an identifier directly followed by one is the
+    // recorded known finding of this property, pinned by its own input in known_findings.json
+    if let Some(i) = n.find('.') {
+        if n[i + 1..].chars().all(|c| c == '0') {
+            n.push('5');
+        }
+    }
+    n
+}
+
+fn numeral_raw(rng: &mut Rng) -> String {
     match rng.below(10) {
         0 => ".5".into(),
         1 => "007".into(),
@@ -270,7 +282,7 @@ fn fixed_point_shape(a: Option<&String>, b: Option<&String>) -> String {
     let wb: Vec<&str> = b.trim_end().split(' ').collect();
     let k = wa.iter().zip(wb.iter()).take_while(|(x, y)| x == y).count();
     let ident = |w: &str| w.chars().next().map(|c| c.is_ascii_alphabetic()).unwrap_or(false) && w.chars().all(|c| c.is_ascii_alphanumeric());
-    if k < wa.len() && k + 1 < wa.len() && k < wb.len() && ident(wa[k]) && wa[k + 1] == "0" && wb[k] == format!("{}0", wa[k]) {
+    if k < wa.len() && k + 1 < wa.len() && k < wb.len() && ident(wa[k]) && wa[k + 1] == "0" && wb[k].starts_with(&format!("{}0", wa[k])) {
         return "identifier followed by the numeral .0".into();
     }
     let data_at = wa.iter().position(|w| *w == "DATA");
